@@ -219,7 +219,13 @@ func c08Common(p *puppet.Peer, e c08Ev) {
 	case "WARN":
 		p.SendAlert(1, 90)
 	case "APP":
-		p.SendApp([]byte("early data"))
+		if e.Aux { // an empty application_data record (under the keys the puppet writes with at that point)
+			p.SendApp(nil)
+		} else {
+			p.SendApp([]byte("early data"))
+		}
+	case "NOCCS":
+		p.SkipCCS()
 	case "END":
 		p.SendAlert(2, 40)
 	case "FRAG":
@@ -421,6 +427,9 @@ func c08AddCase(out *emit.Out, scenario string, in c08Input) {
 	var evs []string
 	ctor := "SeqCase"
 	for _, e := range in.Evs {
+		if e.K == "NOCCS" { // nothing arrives: the peer only changes the keys it writes with
+			continue
+		}
 		if in.Stack == "dtlcp" {
 			evs = append(evs, c08CoqDev(e))
 		} else {
@@ -511,7 +520,7 @@ func c08Alphabet(target string) []c08Ev {
 	} else {
 		a = append(a, c08Ev{K: "CH", OK: true, Aux: true}, c08Ev{K: "CERT", OK: true, Aux: true})
 	}
-	a = append(a, c08Ev{K: "CCS"}, c08Ev{K: "WARN"}, c08Ev{K: "APP"}, c08Ev{K: "FRAG"})
+	a = append(a, c08Ev{K: "CCS"}, c08Ev{K: "WARN"}, c08Ev{K: "APP"}, c08Ev{K: "APP", Aux: true}, c08Ev{K: "FRAG"})
 	return a
 }
 
@@ -598,6 +607,11 @@ func runC08(p params) error {
 				co := cfg
 				co.Coop = true
 				for i := range fl {
+					if fl[i].K == "CCS" {
+						// the ChangeCipherSpec message left out by a peer that carries on in its new epoch
+						co.Evs = append(append(append([]c08Ev{}, fl[:i]...), c08Ev{K: "NOCCS"}), fl[i+1:]...)
+						c08AddCase(out, "peer-omits-ccs", co)
+					}
 					if !isHS(fl[i]) || (fl[i].K == "CH" && i == 0) {
 						continue
 					}
